@@ -10,6 +10,7 @@ import (
 	"runtime"
 	"strings"
 	"sync"
+	"sync/atomic"
 	"testing"
 	"testing/synctest"
 	"time"
@@ -116,6 +117,8 @@ type env struct {
 	gated        bool
 	pendingCalls []*gcall      // user calls blocked on their gate, in arrival order
 	barrier      chan struct{} // closed by releaseAll: every pending call returns on one wake-up
+	spinN        int32         // number of calls that meet at the spin barrier after that wake-up
+	arrived      int32
 	maxInflight  int
 	reordered    bool  // some release move opened a gate other than the oldest
 	sentLog      []int // values the harness arrows managed to send (FMap)
@@ -554,6 +557,16 @@ func (e *env) gate(x int) {
 	select {
 	case <-c.gate:
 	case <-barrier:
+		// leave together: the woken calls meet at a spin barrier, so that they return within nanoseconds of each other
+		// (a channel close alone readies them microseconds apart)
+		n := atomic.LoadInt32(&e.spinN)
+		if atomic.AddInt32(&e.arrived, 1) <= n {
+			for k := 0; atomic.LoadInt32(&e.arrived) < n && k < 200000; k++ {
+				if k%64 == 63 {
+					runtime.Gosched()
+				}
+			}
+		}
 	case <-e.envStop:
 	}
 }
@@ -567,6 +580,8 @@ func (e *env) releaseAll() {
 		e.reordered = true
 	}
 	if e.barrier != nil {
+		atomic.StoreInt32(&e.arrived, 0)
+		atomic.StoreInt32(&e.spinN, int32(min(len(e.pendingCalls), 8)))
 		close(e.barrier)
 		e.barrier = nil
 	}
